@@ -260,6 +260,10 @@ def bounded_collective(tier, seed):
             a, b = rng.choice(n, size=2, replace=False)
             rows.append([int(rng.integers(0, 4)), int(a), int(b), s, s + transit])
         inp = {'rows': rows, 'n_sites': n, 'max_steps': int(rng.choice([0, 1, 2, 5, 20])), 'geometry': 'line', 'max_dist': float(rng.choice([1.0, 2.5, 4.5]))}
+        if c % 10 == 1:
+            inp['max_dist'] = 0.0  # a cut-off of exactly zero: no two sites are closer than that, so no pair is collective
+        if c % 10 == 6:
+            inp['rows'] = inp['rows'][:1]  # a table with a single jump: one solo jump, no pair
         if c % 3 == 2:
             # the same few sites recurring in different groupings: two adjacent pairs (p,p+1), (q,q+1) far apart on a ring of 8-10 sites, so
             # that A->B with C->D is a far pair of jumps while A->C with B->D is a close one
